@@ -80,6 +80,7 @@ type interpreter struct {
 	depth              int
 	inInit             bool
 	onceDone           map[*value]bool
+	builders           map[*value]*[]piece
 }
 
 type deferred struct {
@@ -103,6 +104,9 @@ type frame struct {
 	phitemps         []value // temporaries for parallel phi assignment
 	curInstr         ssa.Instruction
 }
+
+// chanStub stands for a channel value: it can be created, stored and compared, not used.
+type chanStub struct{}
 
 func mustDeref(t types.Type) types.Type {
 	if p, ok := t.Underlying().(*types.Pointer); ok {
@@ -161,7 +165,11 @@ func (i *interpreter) where() string {
 		}
 		f = f.caller
 	}
-	return fmt.Sprintf("%s @ %s", fr.fn.String(), i.prog.Fset.Position(pos))
+	chain := ""
+	for c, n := fr.caller, 0; c != nil && n < 6; c, n = c.caller, n+1 {
+		chain += " <- " + c.fn.String()
+	}
+	return fmt.Sprintf("%s @ %s%s", fr.fn.String(), i.prog.Fset.Position(pos), chain)
 }
 
 // truth returns the value of a condition, forking the path when it is
@@ -426,7 +434,8 @@ func visitInstr(fr *frame, instr ssa.Instruction) continuation {
 		panic(engineError{"go statement is not supported at " + i.where()})
 
 	case *ssa.MakeChan:
-		panic(engineError{"channels are not supported at " + i.where()})
+		// a channel may be created (e.g. by a package initialiser); using it is not supported
+		fr.env[instr] = &chanStub{}
 
 	case *ssa.Alloc:
 		var addr *value
@@ -676,10 +685,8 @@ func runFrame(fr *frame) {
 		}
 		r := recover()
 		passThrough(r)
-		if fr.i.lastWhere == "" || !fr.panicking {
-			if _, isTP := r.(targetPanic); !isTP || fr.i.lastWhere == "" {
-				fr.i.lastWhere = fr.i.where()
-			}
+		if fr.i.lastWhere == "" {
+			fr.i.lastWhere = fr.i.where() // the innermost frame sees the panic first
 		}
 		fr.panicking = true
 		fr.panic = r
@@ -751,6 +758,7 @@ func doRecover(caller *frame) value {
 		caller.caller.panicking = false
 		p := caller.caller.panic
 		caller.caller.panic = nil
+		caller.i.lastWhere = "" // recovered by the program under test
 
 		switch p := p.(type) {
 		case targetPanic:
